@@ -123,6 +123,8 @@ def main():
                 sync_bad += [int(x) + k * per for x in bad[:5]]
                 if pad and blk.shape[0] >= per:
                     pad_bad += int(np.any(blk[ns:per] != blk[ns - 1][None, :]))
+            # append mode: the second run's block must equal the first (same input)
+            res["append_bad"] = int(nruns == 2 and (o.shape[0] != 2 * per or not np.array_equal(o[:per], o[per:])))
             res["sync_bad"] = sync_bad
             res["n_sync_bad"] = len(sync_bad)
             res["pad_bad"] = pad_bad
